@@ -535,7 +535,7 @@ class Builder:
             return cat, r.choice(self.sets["warn_docs"])
         return "other", r.choice(self.sets["docs"] + self.sets["ana"])
 
-    def interfering_model(self, c, x_doc, allow_invalid=True):
+    def interfering_model(self, c, x_doc, allow_invalid=True, no_tok=False):
         """puts a model Y that interferes with the document / script X into a new slot; returns (category, slot, model spec source)"""
         r = self.rng
         cat = r.choice(["near", "near", "near", "onex", "invalid", "null", "badmath", "other"])
@@ -556,7 +556,7 @@ class Builder:
         if cat == "badmath":
             c.add("build:%s:%s:ms" % (self.sets["badmath"], m), ("O",))
             return cat, m
-        d = r.choice(self.sets["docs"] + self.sets["ana"])
+        d = r.choice([x for x in self.sets["docs"] + self.sets["ana"] if not (no_tok and self.inp.meta[x].get("tokc"))])
         c.add("parse:%s:%s:%s:ms" % (self.fresh("p"), d, m), ("P", d))
         return "other", m
 
@@ -610,7 +610,7 @@ class Builder:
             c.info.update(input=x, interferer=cat)
         elif svc in ("analyse", "generate"):
             mx, xdoc, x = self.x_model(c, ["ana", "ana", "ana", "script"])
-            cat, my = self.interfering_model(c, xdoc)
+            cat, my = self.interfering_model(c, xdoc, no_tok=True)
             ext = r.random() < 0.3 and my != "nosuchmodel"
             aa, ab = self.fresh("a"), self.fresh("a")
             ga, gb = self.fresh("g"), self.fresh("g")
@@ -1173,6 +1173,58 @@ def evaluate(ctx, inp, cases, drv, mdl, tag="c12"):
     return judge, nontrivial, crashed, lines
 
 
+def setup_for(case, idx):
+    """the steps needed to bring the objects named by step idx into existence, without the rest of the history"""
+    f = case.steps[idx][0].split(":")
+    op = f[0]
+    want, want_ext = set(), set()
+    if op in ("print", "validate", "annot"):
+        want.add(f[2])
+    elif op == "analyse":
+        want.add(f[2])
+        want_ext.add(f[1])
+    elif op == "generate":
+        want.add("A:" + f[2])
+        want_ext.add(f[2])
+    elif op == "resolve":
+        want.add(f[2])
+    elif op == "flatten":
+        want.add(f[2])
+        want.add("I:" + f[1])
+    elif op in ("clone", "equals", "dump"):
+        want.update(f[1:3])
+    need = []
+    for j in range(idx - 1, 0, -1):
+        g = case.steps[j][0].split(":")
+        o = g[0]
+        if o == "parse" and g[3] in want:
+            want.discard(g[3])
+            need.insert(0, case.steps[j][0])
+        elif o == "build" and g[2] in want:
+            want.discard(g[2])
+            need.insert(0, case.steps[j][0])
+        elif o == "clone" and g[2] in want:
+            want.discard(g[2])
+            want.add(g[1])
+            need.insert(0, case.steps[j][0])
+        elif o == "flatten" and len(g) > 3 and g[3] in want:
+            want.discard(g[3])
+            want.update([g[2], "I:" + g[1]])
+            need.insert(0, case.steps[j][0])
+        elif o == "analyse" and "A:" + g[1] in want:
+            want.discard("A:" + g[1])
+            want.add(g[2])
+            need.insert(0, case.steps[j][0])
+        elif o == "extvar" and g[1] in want_ext:
+            want.add(g[2])
+            need.insert(0, case.steps[j][0])
+        elif o == "resolve" and "I:" + g[1] in want:
+            want.discard("I:" + g[1])
+            want.add(g[2])
+            need.insert(0, case.steps[j][0])
+    return need
+
+
 def control_crashes(ctx, inp, crashed, drv, judge):
     """a case that died: is the crash there without the history (then it is another property's business)?"""
     if not crashed:
@@ -1186,11 +1238,11 @@ def control_crashes(ctx, inp, crashed, drv, judge):
             op = cpp.split(":")[0]
             if op in ("parse", "build"):
                 continue
-            # the step alone, after the steps that create the objects it names
-            need = [s[0] for s in c.steps[1:idx] if s[0].split(":")[0] in ("parse", "build", "resolve", "analyse")
-                    and any(x in cpp.split(":") for x in s[0].split(":")[1:] if x)]
-            singles.append(" ".join(["G:1"] + need + [cpp]))
-            owners.append((c, line, cpp))
+            # the step alone, after the latest steps that create the objects it names (transitively)
+            need = setup_for(c, idx)
+            for g in "01":      # under either value of the flag (the validator's verdict on ci / cn with comments depends on it)
+                singles.append(" ".join(["G:" + g] + need + [cpp]))
+                owners.append((c, line, cpp))
     outs = run_driver(drv, tpath, singles, ctx.workdir, "ctl") if singles else []
     dead_alone = {}
     for (c, line, cpp), o in zip(owners, outs):
